@@ -394,45 +394,18 @@ theorem idle_law_full (cfg : Cfg) (created spawn idle : Int) (evs : List Ev) (it
   have := viewOf_ge_essential created evs it.start c hc hle
   omega
 
-/-- FULL CLAUSE counted from the RECEIPT of a change (`FullIdleRecv`): no run starts within the idle time
-    after the operator began to process an essential change. FALSE of the code
-    (`idle_recv_clause_false_witness`, open finding C10-F2): `idle_reset_time` is stamped in
-    `process_spawning_cause`, i.e. only after the `@kopf.on.event` handlers of the cycle have run; a timer
-    whose idle time is over goes on running while a change is being handled by a slow on-event handler.
-    PROVED under the guard that this is the whole gap: no run starts between the receipt of an essential
-    change and the instant its cycle reaches `process_spawning_cause` (`NoRunDuringProcessing`; trivially
-    met when no time passes there, e.g. no on-event handlers). -/
-theorem idle_law_partial (cfg : Cfg) (created spawn idle : Int) (evs : List Ev) (its : List Iter)
-    (hi : cfg.idle = some idle) (hwf : ∀ e ∈ evs, e.recv ≤ e.t) (hg : NoRunDuringProcessing evs its)
-    (h : Sched cfg (viewOf created evs) spawn its) : FullIdleRecv idle evs its := by
-  intro it hit hrun e he hle
-  have hnot := hg it hit hrun e he
-  have ht : e.t ≤ it.start := by
-    by_cases hlt : it.start < e.t
-    · exact absurd ⟨hle, hlt⟩ hnot
-    · omega
-  have := idle_law_full cfg created spawn idle evs its hi h it hit hrun e.t (essentialEvs_t evs e he) ht
-  have := hwf e (essentialEvs_mem evs e he)
+/-- The idle clause counted from the RECEIPT of a change (`FullIdleRecv`), UNGUARDED: no run starts within
+    the idle time after the instant the operator detected an essential change (`Ev.recv`: right after
+    `_detect_causes`, before any handler of the cycle runs) — for every event history, however long the
+    `@kopf.on.event` handlers of the cycle take. Since f6dee42 `idle_reset_time` is stamped there as well
+    as in `process_spawning_cause` (`stampSites`, translator-tied). Before, the clause was false (fixed
+    finding C10-F2; the old counterexample is a regression example below and corpus/C10/F2.json). -/
+theorem idle_law_recv (cfg : Cfg) (created spawn idle : Int) (evs : List Ev) (its : List Iter)
+    (hi : cfg.idle = some idle) (h : Sched cfg (viewOf created evs) spawn its) : FullIdleRecv idle evs its := by
+  intro it hit _ e he hle
+  have := idle_law cfg (viewOf created evs) spawn idle its hi h it hit
+  have := (viewOf_ge_essentialEvs created evs it.start e he).2 hle
   omega
-
-/-- The guard is needed (open finding C10-F2, replayed on the real operator in every run,
-    corpus/C10/F2.json): timer interval 1 s, idle 4 s; the object is created and handled at 64/66; an
-    edit is received at 640 (essence 1) but a slow `@kopf.on.event` handler keeps the cycle from reaching
-    `process_spawning_cause` until 768. The timer, idle since 64, runs at 704 — 64 ticks (1 s) after the
-    change was received, although idle = 256 ticks. After 768 the law holds again (next run at 1024). -/
-theorem idle_recv_clause_false_witness :
-    ∃ (cfg : Cfg) (idle created spawn : Int) (evs : List Ev) (its : List Iter),
-      cfg.idle = some idle ∧ (∀ e ∈ evs, e.recv ≤ e.t) ∧ Sched cfg (viewOf created evs) spawn its ∧
-      FullIdle idle evs its ∧ ¬ FullIdleRecv idle evs its := by
-  let cfg : Cfg := { interval := some 64, sharp := false, idle := some 256, initialDelay := none, backoff := 64 }
-  let evs : List Ev := [⟨64, 64, 0, none⟩, ⟨66, 66, 0, some 0⟩, ⟨640, 768, 1, some 0⟩]
-  let mk : Int → Int → Iter := fun top t => { top := top, start := t, ended := t, patched := t, res := some .ok }
-  let its : List Iter := [mk 64 320, mk 384 384, mk 448 448, mk 512 512, mk 576 576, mk 640 640, mk 704 704, mk 768 1024]
-  have hs : Sched cfg (viewOf 64 evs) 64 its := schedCheck_sound (extends_total _) (n := 8) (by decide)
-  refine ⟨cfg, 256, 64, 64, evs, its, rfl, by decide, hs, idle_law_full cfg 64 64 256 evs its rfl hs, ?_⟩
-  intro hfull
-  have := hfull (mk 704 704) (by simp [its]) rfl ⟨640, 768, 1, some 0⟩ (by decide) (by decide)
-  simp [mk] at this
 
 /-- Idle-only timers (no interval): after an iteration that left the state finished, the next one needs
     a change newer than the iteration's start (read at one of the poll instants `patched, patched + idle, …`),
@@ -553,6 +526,19 @@ example : essentialTimes evsR = [] := by decide
 example : Sched cfgF (viewOf 1408 evsR) 1408 [mkF 1408 1664] := schedCheck_sound (extends_total _) (n := 8) (by decide)
 -- … whereas after a change made while the operator was down (last-handled 0, essence 1) the first event resets
 example : essentialTimes [⟨1408, 1536, 1, some 0⟩] = [1536] ∧ viewOf 1408 [⟨1408, 1536, 1, some 0⟩] 1700 = 1536 := by decide
+
+-- regression of the fixed finding C10-F2 (corpus/C10/F2.json): timer interval 1 s, idle 4 s; an edit is detected at
+-- 640 but a slow on.event handler keeps the cycle from `process_spawning_cause` until 768. The old code stamped only at
+-- 768 and the timer ran at 640 and 704; now the first stamp is at 640: those runs are no behaviour of the model …
+private def evsG : List Ev := [⟨64, 64, 0, none⟩, ⟨66, 66, 0, some 0⟩, ⟨640, 768, 1, some 0⟩]
+example : viewOf 64 evsG 639 = 64 ∧ viewOf 64 evsG 640 = 640 ∧ viewOf 64 evsG 704 = 640 ∧ viewOf 64 evsG 768 = 768 := by decide
+example : schedCheck cfgF (fun t => some (viewOf 64 evsG t)) 8 64
+    [mkF 64 320, mkF 384 384, mkF 448 448, mkF 512 512, mkF 576 576, mkF 640 640, mkF 704 704] = false := by decide
+-- … the timer waits `idle` after the later stamp (768 + 256), and that schedule meets the clause counted from receipt
+private def itsG := [mkF 64 320, mkF 384 384, mkF 448 448, mkF 512 512, mkF 576 576, mkF 640 1024]
+example : Sched cfgF (viewOf 64 evsG) 64 itsG := schedCheck_sound (extends_total _) (n := 8) (by decide)
+example : FullIdleRecv 256 evsG itsG :=
+  idle_law_recv cfgF 64 64 256 evsG _ rfl (schedCheck_sound (extends_total _) (n := 8) (by decide))
 
 end Examples
 
